@@ -388,7 +388,7 @@ def _content_case(res, pos, s, q, record=True):
                 # identifiers are serialised without any escaping: every identifier that holds a character which needs an
                 # escape belongs to one finding per position; judged by inspection of the content (no counterfactual needed)
                 special = (any(not (c.isalpha() or c in '_-' or c.isdigit() or ord(c) > 127 or c == '\\') for c in s)
-                           or s.lstrip('-')[:1].isdigit() or s.strip('-') == '')
+                           or s.lstrip('-')[:1].isdigit() or s.strip('-') == '' or s.startswith('--'))  # ('--x' is no identifier either)
                 ess = '+'.join(x for x, on in (('backslash', '\\' in s), ('non-name-char', special)) if on) or 'name-chars-only'
                 res.violation(clause, f'ident|{pos}|chars={ess}', case, v['expected'], v['observed'], size=len(s) * 100 + len(text))
                 continue
